@@ -7,7 +7,7 @@ props = [json.loads(l)["id"] for l in open(os.path.join(ROOT, "properties.jsonl"
 hooks = subprocess.run(["git", "-C", "/repo", "log", "--format=%h", "--grep=^verif:"], capture_output=True, text=True).stdout.split()
 checks = []
 for p in props:
-    if p not in cfg or cfg[p].get("disabled"):
+    if p not in cfg or cfg[p].get("disabled") or not cfg[p].get("reviewed"):
         continue
     c = cfg[p]
     checks.append({
@@ -22,7 +22,7 @@ for p in props:
         "technique": c.get("technique", "Lean 4 theorems over an executable model + differential correspondence with the Rust implementation"),
     })
 na = [{"property_id": p, "reason": (cfg.get(p, {}).get("na_reason") or "no check registered in this revision: model and theorems for this property are not yet built (DESIGN.md section 8 gives the order of work); nothing is claimed for it")}
-      for p in props if p not in cfg or cfg[p].get("disabled")]
+      for p in props if p not in cfg or cfg[p].get("disabled") or not cfg[p].get("reviewed")]
 m = {
     "version": 1,
     "setup_cmd": "./setup.sh",
